@@ -20,7 +20,7 @@ Reference model: a template is a list of parts (`Text(s)` / `Hole(label, formatt
 
 use std::{
     borrow::Cow,
-    fmt::{self, Write as _},
+    fmt,
     sync::OnceLock,
 };
 
@@ -28,7 +28,7 @@ use emit::{
     props::ErasedProps,
     template::{self, Formatter, Part},
     value::ToValue,
-    Empty, Event, Path, Props, Str, Template, Value,
+    Empty, Event, Path, Str, Template, Value,
 };
 use vcommon::*;
 
@@ -645,6 +645,10 @@ fn check_eq(r: &mut Report, cx: &Ctx, a: &Template, ma: &[MPart], b: &Template, 
     let want = normal(ma) == normal(mb);
     let witness = || json!({"a": format!("{:?}", ma), "b": format!("{:?}", mb), "relation": relation, "equal_normal_forms": want});
     r.observe("comparisons", 2);
+    r.observe(
+        &format!("pairs:{}:{}", relation.split(':').next().unwrap_or(relation), if want { "equal-normal-forms" } else { "different-normal-forms" }),
+        1,
+    );
     match catch(|| (a == b, b == a)) {
         Err(msg) => {
             viol(
@@ -1176,9 +1180,9 @@ fn main() {
     macro_sites(&mut r);
 
     let miri = cfg!(miri);
-    let n_seeded = if miri { (40 * args.scale / 100).max(1) } else { args.n(30_000, 2_000_000) };
+    let n_seeded = if miri { (40 * args.scale / 100).max(1) } else { args.n(300_000, 12_000_000) };
     par_cases(&mut r, &args, n_seeded, |i, r| seeded_case(r, seed, i));
-    let n_unrelated = if miri { (20 * args.scale / 100).max(1) } else { args.n(20_000, 1_500_000) };
+    let n_unrelated = if miri { (20 * args.scale / 100).max(1) } else { args.n(200_000, 8_000_000) };
     par_cases(&mut r, &args, n_unrelated, |i, r| unrelated_case(r, seed, i));
 
     std::process::exit(r.finish());
